@@ -531,8 +531,294 @@ def _strings_and_uids(ctx):
                 ctx.disagree('L0', {'uid': u}, u, got, 'UID() rendering')
 
 
+# =====================================================================================================
+# (c) constructors and converters: input snapshots, copy / no-copy, strict write, read back, identifiers
+# =====================================================================================================
+def _subject(ctx, idx):
+    """case idx -> subject dict (pure function of seed, idx)"""
+    from gen import objects
+    r = ctx.rng('subject', idx)
+    f = objects.SUBJECTS[idx % len(objects.SUBJECTS)]
+    del objects.GIVEN_UIDS[:]
+    s = f(r, ctx.np_rng('subject', idx))
+    s['given_uids'] = set(objects.GIVEN_UIDS)
+    return s
+
+
+def _generated_uids(obj, inputs, given=()):
+    """UI values of the result that occur nowhere in the arguments: identifiers the library generated in this call"""
+    from pydicom.dataset import Dataset
+    have = set(given)
+
+    def walk(x, d=0):
+        if d > 6:
+            return
+        if isinstance(x, Dataset):
+            have.update(uid_values(x))
+            fm = getattr(x, 'file_meta', None)
+            if fm is not None:
+                have.update(uid_values(fm))
+        elif isinstance(x, (list, tuple)) or type(x).__name__ == 'Sequence':
+            for i in x:
+                walk(i, d + 1)
+        elif isinstance(x, dict):
+            for i in x.values():
+                walk(i, d + 1)
+    walk(inputs)
+    mine = uid_values(obj)
+    # registered (1.2.840.10008.*) identifiers are constants of the standard, not generated values
+    return {u: kw for u, kw in mine.items() if u not in have and not u.startswith('1.2.840.10008.')}
+
+
+def _run_subject(ctx, idx, collect=None):
+    import highdicom as hd
+    try:
+        s = _subject(ctx, idx)
+    except Exception as e:  # noqa: BLE001
+        ctx.note(f'generator failed for subject {idx}: {type(e).__name__}: {str(e)[:150]}')
+        ctx.hist('subject_outcome', 'generator-error')
+        return
+    case = {'subject': s['name'], 'idx': idx, 'variant': repr(s['variant'])}
+    before = {k: snap(v) for k, v in s['inputs'].items()}
+    try:
+        obj = s['call'](**s['inputs'])
+    except Exception as e:  # noqa: BLE001
+        ctx.case(subject=s['name'], subject_outcome='refused:' + type(e).__name__)
+        ctx.note(f"{s['name']} {s['variant']} refused generated arguments: {type(e).__name__}: {str(e)[:120]}")
+        # a refusal must not have altered the arguments either
+        for k in before:
+            d = snap_diff(before[k], snap(s['inputs'][k]), k)
+            if d:
+                ctx.fail(case, f'argument altered by a constructor that then refused: {d}', site=s['name'] + '/inputs')
+        return
+    nontriv = (s['name'], s['variant'])
+    ctx.case(sample=case if ctx.evaluations % 37 == 0 else None, nontrivial_key=nontriv, subject=s['name'], subject_outcome='ok')
+    # 1. inputs untouched
+    for k in before:
+        d = snap_diff(before[k], snap(s['inputs'][k]), k)
+        if d:
+            ctx.fail(case, f'argument altered by the constructor: {d}', site=s['name'] + '/inputs')
+    # 2. file clause
+    if hasattr(obj, 'save_as') and hasattr(obj, 'SOPInstanceUID'):
+        msg, blob = file_clause(obj)
+        if msg:
+            ctx.fail(case, msg, site=s['name'] + '/file')
+        # 3. identifiers generated by the library are unique per call (same arguments, second call)
+        if idx % 3 == 0:
+            try:
+                obj2 = s['call'](**s['inputs'])
+                g1, g2 = (_generated_uids(o, s['inputs'], s['given_uids']) for o in (obj, obj2))
+                both = set(g1) & set(g2)
+                if both:
+                    u = sorted(both)[0]
+                    ctx.fail(case, f'identifier generated in two calls is the same: {g1[u]} = {u}', site=s['name'] + '/uid')
+                ctx.hist('generated_uids_per_call', len(g1))
+            except Exception as e:  # noqa: BLE001
+                ctx.fail(case, f'second call with the same (unaltered) arguments failed: {type(e).__name__}: {str(e)[:150]}',
+                         site=s['name'] + '/second-call')
+        if collect is not None:
+            collect.append((case, obj, blob))
+    elif collect is not None:
+        collect.append((case, obj, None))
+
+
+def _converter_classes():
+    """every highdicom class with a from_dataset / from_sequence classmethod: {class: (method name, has copy parameter)}"""
+    import importlib
+    import inspect
+    import pkgutil
+    import highdicom as hd
+    out = {}
+    for m in pkgutil.walk_packages(hd.__path__, 'highdicom.'):
+        if m.name.endswith('_modules') or '._' in m.name and not m.name.endswith('_module_utils'):
+            continue
+        try:
+            mod = importlib.import_module(m.name)
+        except Exception:  # noqa: BLE001
+            continue
+        for _, c in inspect.getmembers(mod, inspect.isclass):
+            if not c.__module__.startswith('highdicom'):
+                continue
+            for meth in ('from_dataset', 'from_sequence'):
+                f = c.__dict__.get(meth)
+                if f is None:
+                    continue
+                try:
+                    sig = inspect.signature(getattr(c, meth))
+                except (TypeError, ValueError):
+                    continue
+                out[(c, meth)] = 'copy' in sig.parameters
+    return out
+
+
+def _harvest(obj, acc, depth=0):
+    """all nested datasets / sequences of a constructed object whose class is a highdicom class"""
+    from pydicom.dataset import Dataset
+    if depth > 30:
+        return
+    if isinstance(obj, Dataset):
+        if type(obj).__module__.startswith('highdicom'):
+            acc.append(obj)
+        for e in obj:
+            if e.VR == 'SQ':
+                if type(e.value).__module__.startswith('highdicom'):
+                    acc.append(e.value)
+                for it in e.value:
+                    _harvest(it, acc, depth + 1)
+    elif hasattr(obj, '__iter__') and not isinstance(obj, (str, bytes)):
+        if type(obj).__module__.startswith('highdicom'):
+            acc.append(obj)
+        for it in obj:
+            _harvest(it, acc, depth + 1)
+
+
+def _call_converter(cls, meth, arg, copy, extra):
+    f = getattr(cls, meth)
+    kw = dict(extra)
+    if copy is not None:
+        kw['copy'] = copy
+    return f(arg, **kw)
+
+
+def _converter_extra(cls, meth, inst):
+    """further required arguments of some converters, read off the instance"""
+    import inspect
+    sig = inspect.signature(getattr(cls, meth))
+    extra = {}
+    for name, p in sig.parameters.items():
+        if name in ('is_root', 'is_sr') and hasattr(inst, '_' + name):
+            extra[name] = bool(getattr(inst, '_' + name))
+            continue
+        if name in ('dataset', 'sequence', 'copy') or p.default is not inspect._empty:
+            continue
+        if p.kind in (p.VAR_KEYWORD, p.VAR_POSITIONAL):
+            continue
+        if name == 'is_root':
+            extra[name] = bool(getattr(inst, '_is_root', False))
+        elif name == 'is_sr':
+            extra[name] = bool(getattr(inst, '_is_sr', True))
+        elif name == 'color':
+            extra[name] = None
+        else:
+            return None
+    return extra
+
+
+def _check_converter(ctx, cls, meth, has_copy, inst, origin):
+    """one instance through one converter with copy in {True, False} (or without the parameter)"""
+    from pydicom.dataset import Dataset
+    name = f'{cls.__module__.replace("highdicom.", "")}.{cls.__qualname__}.{meth}'
+    extra = _converter_extra(cls, meth, inst)
+    if extra is None:
+        ctx.hist('converter_outcome', 'skipped:arguments')
+        return
+    # sequences travel as plain pydicom Sequence / list of plain datasets, datasets as plain Dataset
+    for copy in ((True, False) if has_copy else (None,)):
+        try:
+            plain = plainify(inst)
+        except Exception as e:  # noqa: BLE001
+            ctx.note(f'plainify failed for {name}: {e}')
+            return
+        if meth == 'from_sequence' and cls.__module__ == 'highdicom.sr.templates':
+            # the template converters take content items that were already parsed (what ContentSequence.from_sequence yields)
+            from highdicom.sr import ContentSequence
+            try:
+                plain = ContentSequence.from_sequence(plain, is_root=bool(getattr(inst, '_is_root', False)),
+                                                      is_sr=bool(getattr(inst, '_is_sr', True)), copy=False)
+            except Exception as e:  # noqa: BLE001
+                ctx.note(f'could not pre-parse the argument of {name}: {type(e).__name__}: {e}'[:200])
+                return
+        elif meth == 'from_sequence' and cls.__module__.startswith('highdicom.sr') and \
+                ctx.rng('convseq', ctx.evaluations).random() < 0.5:
+            plain = list(plain)
+        case = {'converter': name, 'copy': copy, 'origin': origin}
+        before = snap(plain)
+        ids_before = mutable_ids(plain)
+        try:
+            res = _call_converter(cls, meth, plain, copy, extra)
+        except Exception as e:  # noqa: BLE001
+            ctx.case(converter=name, converter_outcome='refused:' + type(e).__name__)
+            ctx.hist('converter_refusals', f'{name}: {type(e).__name__}: {str(e)[:80]}')
+            d = snap_diff(before, snap(plain))
+            if d and copy is not False:
+                ctx.fail(case, f'original altered by a conversion that then refused: {d}', site=name)
+            continue
+        ctx.case(sample=case if ctx.evaluations % 53 == 0 else None, nontrivial_key=('conv', name, copy),
+                 converter=name, converter_outcome='ok', copy=copy)
+        if copy is False:
+            # in-place conversion was requested: the same object comes back
+            # (a sequence converter may have to build a new container; then its items must be the caller's items)
+            same_items = meth == 'from_sequence' and hasattr(res, '__len__') and len(res) == len(plain) and \
+                all(a is b for a, b in zip(res, plain))
+            if res is not plain and not same_items:
+                ctx.fail(case, f'conversion without copying returned a different object ({type(res).__name__})', site=name)
+            continue
+        # copy=True, or a converter that offers no in-place mode: the original is untouched ...
+        d = snap_diff(before, snap(plain))
+        if d:
+            ctx.fail(case, f'original altered by a copying conversion: {d}', site=name)
+        # ... and the result shares no mutable part with it
+        if res is plain:
+            ctx.fail(case, 'copying conversion returned the original object', site=name)
+        elif copy is True and (isinstance(res, (Dataset, list)) or hasattr(res, '__iter__')):
+            # only where a deep copy was asked for explicitly (converters without the parameter promise nothing about
+            # sharing; the property speaks of modification only)
+            shared = set(ids_before) & set(mutable_ids(res))
+            if shared:
+                k = sorted(shared)[0]
+                ctx.fail(case, f'result of a copying conversion shares a mutable {ids_before[k]} with the original', site=name)
+
+
+def _objects(ctx):
+    import logging
+    import warnings
+    logging.disable(logging.CRITICAL)
+    warnings.simplefilter('ignore')
+    built = []
+    n = ctx.n(140, 2400)
+    for idx in range(n):
+        _run_subject(ctx, idx, built)
+    # converters on everything the constructors produced
+    conv = _converter_classes()
+    by_class = {}
+    for (c, meth), has_copy in conv.items():
+        by_class.setdefault(c, []).append((meth, has_copy))
+    seen_per = {}
+    import pydicom
+    for case, obj, blob in built:
+        # SOP-level converters on the file that was written (plain pydicom objects all the way down)
+        for c, ms in by_class.items():
+            if blob is not None and (type(obj) is c or (c.__name__ == 'Image' and 'PixelData' in obj
+                                                        and type(obj).__name__ in ('Segmentation', 'ParametricMap', 'SCImage'))):
+                for meth, has_copy in ms:
+                    if seen_per.get((c, meth), 0) >= ctx.n(6, 40):
+                        continue
+                    seen_per[(c, meth)] = seen_per.get((c, meth), 0) + 1
+                    plain = pydicom.dcmread(io.BytesIO(blob))
+                    _check_converter(ctx, c, meth, has_copy, plain, case['subject'])
+        acc = []
+        _harvest(obj, acc)
+        for inst in acc:
+            if inst is obj:
+                continue
+            for c, ms in by_class.items():
+                if type(inst) is not c:
+                    continue
+                for meth, has_copy in ms:
+                    if seen_per.get((c, meth), 0) >= ctx.n(6, 40):
+                        continue
+                    seen_per[(c, meth)] = seen_per.get((c, meth), 0) + 1
+                    _check_converter(ctx, c, meth, has_copy, inst, case['subject'])
+    missing = sorted(f'{c.__module__.replace("highdicom.", "")}.{c.__qualname__}.{m}' for (c, m) in conv if (c, m) not in seen_per)
+    ctx.note(f'converters exercised: {len(seen_per)} of {len(conv)}; not reached by any generated object: {missing}')
+    ctx.hist('converters', 'exercised', len(seen_per))
+    ctx.hist('converters', 'not-reached', len(missing))
+    logging.disable(logging.NOTSET)
+
+
 def run(ctx):
     _strings_and_uids(ctx)
+    _objects(ctx)
 
 
 def replay(ctx, case):
